@@ -101,6 +101,7 @@ class Engine:
         self.docpanic = set()        # documented panickers (root set D): a failing obligation below one is charged to the call that enters it
         self.failstack = [0]
         self.memo_fails = {}
+        self.cutoffs = 0
         self.last_fails = 0
         self._tcache = {}
         import stdmodels
@@ -358,10 +359,21 @@ class Engine:
             self.failstack[-1] += self.last_fails
             return self.memo[key]
         self.last_fails = 0
-        if key in self.inprogress or depth > self.depth_limit or self.contexts > self.ctx_limit:
+        if key in self.inprogress:
+            # recursion: the result of the enclosing analysis of the same context is not yet known; its obligations are being collected there
             f = P.fn(fpath)
             ret = ("t", f["mir"]["locals"][0])
             return (ret, {i: ("unk",) for i in range(len(args))})
+        if depth > self.depth_limit or self.contexts > self.ctx_limit:
+            # budget exhausted: fall back to the context-insensitive summary (arguments at their full type range), analysed once
+            # with a fresh depth budget, so that no function body reachable from a root is left without analysis
+            m = P.fn(fpath)["mir"]
+            top = tuple(("t", m["locals"][i]) for i in range(1, m["argc"] + 1))
+            self.cutoffs += 1
+            if top == tuple(args) and depth == 0:
+                ret = ("t", m["locals"][0])
+                return (ret, {i: ("unk",) for i in range(len(args))})
+            return self.analyse(fpath, top, 0)
         self.inprogress.add(key)
         self.contexts += 1
         self.callstack.append(fpath)
